@@ -15,10 +15,12 @@ clauses are evaluated one by one:
   contents   == previous, or == the reference result of the completed call
              (a call that stores/removes several keys may stop between keys)
   followup   lookups of all keys, insert + delete of a fresh key, len
-  refcount   sys.getrefcount change of every key/value == change of the number
-             of slots holding it (H.slot_counts); after destroying everything
-             the counts are those from before anything was stored and weak
-             references to all keys/values are dead
+  refcount   (C) sys.getrefcount change of every key/value == change of the
+             number of slots holding it (H.slot_counts); reported as arg-leak
+             when the object is a probe that never was stored
+  leak-after-destroy  after dropping the containers the counts are those from
+             before anything was stored and weak references to all keys/values
+             are dead (both implementations, after a gc.collect())
 """
 import argparse
 import gc
@@ -71,6 +73,8 @@ class V:
     def __init__(self, v):
         self.v = v
 
+    def __repr__(self): return "V(%r)" % (self.v,)
+
 
 def lab(x):
     return x.v if isinstance(x, (K, V)) else x
@@ -93,7 +97,7 @@ class World:
 
     def __init__(self, cls, is_set, recipe, obj_values):
         self.is_set = is_set
-        universe = list(range(-2, 30)) + [51, 71, 73, 99, 1001]
+        universe = list(range(-2, 18 if H.tier() == "quick" else 30)) + [51, 71, 73, 99, 1001]
         self.sk = {v: K(v) for v in universe}
         self.uk = {v: K(v) for v in universe}
         self.pk = {v: K(v) for v in universe}
@@ -121,8 +125,8 @@ class World:
     def slots(self):
         return H.slot_counts([self.t, self.u, self.held], self.tracked)
 
-    def contents(self, t=None):
-        t = self.t if t is None else t
+    def contents(self):
+        t = self.t
         return [lab(k) for k in t.keys()] if self.is_set else [(lab(k), lab(v)) for k, v in t.items()]
 
 
@@ -163,7 +167,7 @@ def operations(is_set, is_tree, d):
     return ops
 
 
-def prepare(w, op, cls, mod, py):
+def prepare(w, op, cls):
     """No faults yet: build the second operand / the three states of a merge."""
     name = op[1]
     if op[0] == "algebra" and len(op) == 2:
@@ -201,9 +205,11 @@ def run_op(w, op, mod, py):
     if name == "isub": t -= [P[k] for k in a[0]]; return None
     if name == "ixor": t ^= [P[k] for k in a[0]]; return None
     if name == "isdisjoint": return t.isdisjoint([P[k] for k in a[0]])
-    if name in ("keys", "values", "items"): return list(getattr(t, name)(P[a[0]], P[a[1]]))
-    if name == "iteritems": return list(t.iteritems(P[a[0]], P[a[1]]))
-    if name == "keys_excl": return list(t.keys(P[a[0]], P[a[1]], True, True))
+    # materialised by iteration only: list(x) asks for len(x) first and CPython
+    # itself discards a TypeError raised by __len__ (length hint)
+    if name in ("keys", "values", "items"): return [x for x in getattr(t, name)(P[a[0]], P[a[1]])]
+    if name == "iteritems": return [x for x in t.iteritems(P[a[0]], P[a[1]])]
+    if name == "keys_excl": return [x for x in t.keys(P[a[0]], P[a[1]], True, True)]
     if name in ("minKey", "maxKey"): return getattr(t, name)(P[a[0]])
     if name in ("union", "intersection", "difference"):
         return getattr(mod, name + ("Py" if py else ""))(t, w.u)
@@ -288,8 +294,9 @@ def run_config(s, fam, kind, impl, sizes, seen_cases, samples):
                 n = 0
                 while True:
                     n += 1
+                    gc.freeze()        # what exists now is not garbage of this case: keeps gc.collect() cheap
                     w = World(cls, is_set, recipe, obj_values)
-                    prepare(w, op, cls, mod, py)
+                    prepare(w, op, cls)
                     valmap = {("V", i): lab(w.vals[i]) for i in range(3)}
                     norm = lambda d: sorted(d) if is_set else sorted((k, valmap[v]) for k, v in d.items())
                     before = norm(d0)
@@ -349,16 +356,18 @@ def run_config(s, fam, kind, impl, sizes, seen_cases, samples):
                         if not (multi and sb & sa <= sg <= sb | sa):
                             ok = False
                             fail("contents", op, "contents %r, previous %r, completed %r" % (got, before, after), repro)
-                    # -- slot ownership right after the failed call
-                    if ok:
+                    # -- slot ownership right after the failed call.  C only: in pure Python the
+                    #    interpreter does the counting (and e.g. _data[0].key is a harmless extra holder)
+                    if ok and not py:
                         sl2 = w.slots()
-                        exp = [r + b - a for r, a, b in zip(rc1, sl1, sl2)]
-                        if w.refs() != exp:
-                            gc.collect()
-                        bad = [(repr(o), x - e) for o, x, e in zip(w.tracked, w.refs(), exp) if x != e]
-                        if bad:
-                            ok = False
-                            fail("refcount", op, "reference count differs from slots held (object, surplus): %r" % (bad[:4],), repro)
+                        gc.collect()       # the walker's closures are cyclic garbage, not a leak
+                        for clause, sel in (("refcount", lambda a, b: a or b), ("arg-leak", lambda a, b: not (a or b))):
+                            bad = [(repr(o), x - (r + b - a)) for o, x, r, a, b in zip(w.tracked, w.refs(), rc1, sl1, sl2)
+                                   if x != r + b - a and sel(a, b)]
+                            if bad:
+                                ok = False
+                                fail(clause, op, "reference count differs from slots held, (%s, surplus): %r" % (
+                                    "stored object" if clause == "refcount" else "never stored argument", bad[:4]), repro)
                     # -- later operations behave normally
                     if ok:
                         msg = followup(w, got, is_set, is_tree)
@@ -369,8 +378,7 @@ def run_config(s, fam, kind, impl, sizes, seen_cases, samples):
                     if ok:
                         w.t = w.u = None
                         w.held = []
-                        if w.refs() != w.base0:
-                            gc.collect()
+                        gc.collect()
                         bad = [(repr(o), x - e) for o, x, e in zip(w.tracked, w.refs(), w.base0) if x != e]
                         wr = [weakref.ref(o) for o in w.tracked]
                         w.tracked, w.sk, w.uk, w.pk, w.vals = [], {}, {}, {}, []
@@ -401,6 +409,7 @@ def main():
                            "Bucket_findRangeEnd", "bucket_merge", "set_operation", "_Set_update", "set_i*/TreeSet_i*",
                            "_Tree._set/_del/_search", "_BucketBase._search/_range", "_set_operation", "_p_resolveConflict"])
     seen, samples = set(), []
+    gc.disable()               # collections are made explicitly, at fixed points of a case
     for fam in H.fams():
         if fam[0] != "O":
             continue
